@@ -462,7 +462,7 @@ def mk_op(letter, rng, nt, bo, tail):
     if letter == 't-big':
         return dict(op='truncate', index=-100)
     if letter == 'tni':
-        return dict(op='truncate', index=1, nonint=rng.choice(['float', 'npint', 'str']))
+        return dict(op='truncate', index=1, nonint=rng.choice(['float', 'npint', 'npint', 'npint16', 'npuint8', 'str']))
     if letter == 'set':
         ix = rng.choice([['s', 0, None, 2], ['s', None, None, None], 0, -1, ['t', 'E', 0] if t else 0,
                          ['s', 1, 3, None], ['ia', [0, 0]], ['s', None, None, -1]])
